@@ -18,6 +18,9 @@ full strength, in every stamp mode (xattrs, fallback records, symlink outputs) a
 * `C32_recover`: the next plain build of the same tree succeeds — also for targets whose up-to-date path loads the
   metadata file (`C32_metadata_never_truncated`: a truncated gob is never found under current stamps) — leaves exactly
   the clean outputs and is then stable; `C32_recover_repeated`: after any number of kills in a row as well.
+* `C32_unverified_never_trusted`: a step whose outputs fail their declared `hashes` never leaves, at any cut (the whole
+  failure path up to Build's RemoveOutputs included), a state the next build accepts — by the regenerated order verify →
+  record inside calculateAndCheckRuleHash; `C32_witness_stamp_before_verify` is the kernel-checked failure of the other order.
 * `C32_needsBuilding_refines`, `C32_build_refines`: the filesystem-level test / step refine `buildOne` of the history model.
 * `C32_before_fix_*`: the three kernel-checked witnesses of what went wrong with the OLD order (`plan = planWith
   codedOrder`; conditional on the old fact value by construction); the theorems that held then are in
@@ -36,6 +39,8 @@ def WriteFileCallsOK : Bool := C32.writeFileCalls == WriteFile.codedCalls
 def FactsOK : Bool :=
   PhasesOK && WriteFileCallsOK &&
   C32.stampPhaseCalls == ["OutputHash", "writeRuleHash"] &&
+  -- declared hashes are verified BEFORE the record is written, and a mismatch returns the error at once
+  C32.verifyThenStamp == ["OutputHash", "checkRuleHashes", "writeRuleHash", "Chmod"] && C32.verifyFailureReturnsError &&
   C32.removeRuleHashSteps == ["if(len(outputs) == 0):RemoveAttr", "range(outputs):RemoveAttr(element)"] &&
   C32.removeRuleHashOverFullOutputs && C32.removeAttrCalls == ["Remove", "fallbackFileName", "LRemove", "LRemove"] &&
   C32.storeMetadataCalls == ["RemoveAll", "MkdirAll", "Create", "Encode"] &&
@@ -225,6 +230,46 @@ theorem C32_recover_repeated (b : Params N C S H) (G : N → C → S → Prop) (
       inv := hi, md := fun hm => by rw [hr] at hm; simp at hm }
   have := C32_recover b G (crashSeqG b ks fs) h' 0
   simpa [applyOps] using this
+
+/-! ### declared hashes: a record is only ever written on outputs that passed verification -/
+
+/-- is the rule-hash record written before the declared hashes are verified? (regenerated from calculateAndCheckRuleHash) -/
+def stampFirstG : Bool := C32.verifyThenStamp.idxOf "writeRuleHash" < C32.verifyThenStamp.idxOf "checkRuleHashes"
+
+theorem stampFirstG_false : stampFirstG = false := by decide
+
+/-- the build step of a target whose outputs fail the verification of its declared `hashes`, as regenerated -/
+def planFailG (b : Params N C S H) (fs : TState N C S) := planFailWith C32.buildPhases stampFirstG b fs
+
+/-- **C32 for targets with declared hashes.**  The outputs of the step do not match the declared hashes (a clean build
+    FAILS with "Bad output hash" and leaves nothing).  Kill the step after ANY number of operations — in particular
+    anywhere on the failure path between the failed verification and the end of Build's RemoveOutputs: the next build
+    does not find the target up to date (so it runs the step again and fails like the clean build), provided the state
+    before was not accepted either.  Every stamp mode, any outputs. -/
+theorem C32_unverified_never_trusted (b : Params N C S H) (fs : TState N C S) (hnd : b.outs.Nodup) (hne : b.outs ≠ [])
+    (hpre : needsBuilding b fs = true) (k : Nat) :
+    needsBuilding b (applyOps fs ((planFailG b fs).take k)) = true := by
+  unfold planFailG
+  rw [phases_eq, stampFirstG_false]
+  exact failing_step_never_trusted b fs hnd hne hpre k
+
+open Unrepaired.W in
+/-- with the other order (record first, verification last) a cut exists — after the record, before RemoveOutputs — that
+    leaves the unverified output (content 20) with its metadata under a current record: the next build accepts it -/
+theorem C32_witness_stamp_before_verify :
+    needsBuilding (par 20 200 false [] false) (st (some [9]) ⟨none, some ⟨10, some 100⟩, none⟩) = true ∧
+    needsBuilding (par 20 200 false [] false)
+      (applyOps (st (some [9]) ⟨none, some ⟨10, some 100⟩, none⟩)
+        ((planFailWith fixedOrder true (par 20 200 false [] false) (st (some [9]) ⟨none, some ⟨10, some 100⟩, none⟩)).take 11)) = false ∧
+    (((applyOps (st (some [9]) ⟨none, some ⟨10, some 100⟩, none⟩)
+        ((planFailWith fixedOrder true (par 20 200 false [] false) (st (some [9]) ⟨none, some ⟨10, some 100⟩, none⟩)).take 11)).out 0).gen.map (·.content))
+      = some 20 := by
+  decide
+
+-- non-vacuity of C32_unverified_never_trusted: the state and step of the witness satisfy its hypotheses
+open Unrepaired.W in
+example : (par 20 200 false [] false).outs.Nodup ∧ (par 20 200 false [] false).outs ≠ [] ∧
+    needsBuilding (par 20 200 false [] false) (st (some [9]) ⟨none, some ⟨10, some 100⟩, none⟩) = true := by decide
 
 /-! ### refinement to the history model of C01, and the property over histories -/
 
